@@ -20,6 +20,7 @@ def unary_menu():
     add(("map", "pair"), ("i",), "p")
     add(("starmap", "add"), ("p",), "i")
     add(("filter", "odd"), ("i",), "i")
+    add(("remove", "odd"), ("i",), "i")
     add(("filter", "none"), ("i", "p", "tn", "te"), "=")
     add(("acc", "add", None, False), ("i",), "i")
     add(("acc", "add", 0, False), ("i",), "i")
